@@ -55,14 +55,15 @@ theorem poll_going_obs_yield (cfg : CCfg) (hrep : cfg.replay = false) (pid : Nat
       simp only [hR, onPolled_cons cfg _ ⟨pid, s.len - 1, (List.range' (l + 1) (w + 1)).map msgAt⟩ _ _ hcons]
       exact ⟨_, rfl⟩
 
-/-- a poll whose reply was consumed already, when the client believes the server lags: the consumed
-offset is stored (the fix of 47819f3) -/
+/-- a poll whose reply was consumed already, when the client believes the server lags or the strategy is
+`next` (the reply itself shows the lag): the consumed offset is stored (the fixes of 47819f3 and of the
+stale-member commit) -/
 theorem poll_going_sync (cfg : CCfg) (hrep : cfg.replay = false) (pid : Nat) (strat0 : Strat) (c : Cons) (s : Srv)
     (l : Nat) (hc : c.consumed = [(pid, l)]) (hb : c.buffered = []) (hl : l < s.len) (hbatch : 1 ≤ cfg.batch)
     (hst : s.start c.strat cfg.batch ≤ l)
     (hreach : min (s.start c.strat cfg.batch + cfg.batch) s.len ≤ l + 1)
     (hauto : cfg.autoCommitEnabled = true) (hpol : cfg.polling = false)
-    (hlag : (c.stored.get? pid).getD 0 < l) :
+    (hlag : (c.stored.get? pid).getD 0 < l ∨ c.strat = .next) :
     ∃ r, step cfg pid strat0 (c, s) .poll =
       (({ c with curPart := pid, stored := c.stored.set pid l }, { s with stored := some l }),
        [.polled s.stored r, .store l true]) := by
@@ -82,8 +83,9 @@ theorem poll_going_sync (cfg : CCfg) (hrep : cfg.replay = false) (pid : Nat) (st
     have hmax : max st (l + 1) = l + 1 := by omega
     simp only [filter_run, hmax] at hR
     have hw : st + (k + 1) - (l + 1) = 0 := by omega
-    simp only [hw, List.range'_zero, List.map_nil, ↓reduceIte, hauto, hpol, hlag, Bool.not_false, Bool.and_self,
-      decide_true] at hR
+    have hlag' : (decide ((c.stored.get? pid).getD 0 < l) || c.strat == .next) = true := by
+      rcases hlag with h | h <;> simp [h]
+    simp only [hw, List.range'_zero, List.map_nil, ↓reduceIte, hauto, hpol, hlag', Bool.not_false, Bool.and_self] at hR
     simp only [hR, onPolled_nil, hpol, Bool.false_and, Bool.false_eq_true, ↓reduceIte, Srv.store_lt s l hl,
       List.append_nil]
     exact ⟨_, rfl⟩
@@ -142,7 +144,7 @@ theorem no_stall_inv (hg : Good cfg .next) (hm : ConsumeMode cfg ∨ cfg.polling
             omega
         have hstl : s.start c.strat cfg.batch ≤ a + n := by omega
         obtain ⟨r, hstep⟩ := poll_going_sync cfg hg.replay pid .next c s (a + n) hc hb (by omega) hbatch hstl
-          (by omega) hm.auto hm.not_polling hlag
+          (by omega) hm.auto hm.not_polling (Or.inl hlag)
         rw [hstep]
         simp only [Nat.add_sub_cancel]
         have h2 := poll_going_obs_yield cfg hg.replay pid .next
